@@ -586,7 +586,7 @@ def rule_iterator_structure(ctx, rep):
 def rule_shared_interpreter(ctx, rep):
     R = 'B15-SHARED-INTERPRETER'
     rep.rule(R, 'LangInterpreter::apply is called only from exec_group, WordToDigitParser::push, the facade, the apply_decimal '
-                'forwarders and the annotation passes; text2digits reaches it only through exec_group')
+                'forwarders and the annotation passes')
     f = ctx.facts
     callers = {}
     for path, m in f.mir.items():
@@ -603,28 +603,3 @@ def rule_shared_interpreter(ctx, rep):
         rep.check(bool(allowed.match(p)), R, 'caller|' + p, 'expected caller of apply',
                   '`%s` interprets words directly: a second driver beside the validator and the scanner' % p)
     rep.floor(R, len(callers), 10, 'callers of apply / apply_decimal')
-    qq = q(ctx, 'word_to_digit::text2digits')
-    if qq is None:
-        rep.anchor(R, 'text2digits', 'not found')
-    else:
-        trait_calls = sorted({n for _b, n, _d, _t in qq.all_calls() if n.startswith('LangInterpreter::')})
-        rep.check(trait_calls == ['LangInterpreter::exec_group', 'LangInterpreter::format_and_value'], R, 'text2digits',
-                  'text2digits = exec_group + format_and_value', 'text2digits calls %s' % trait_calls)
-        eg = qq.calls('LangInterpreter::exec_group')
-        if eg:
-            d = qq.desc(eg[0])
-            # whitespace trimming before the split is behaviour-preserving: ignore it
-            core = d
-            for w in ('str::trim(', 'str::trim_start(', 'str::trim_end(', 'Deref::deref('):
-                while w in core:
-                    i = core.index(w)
-                    j = i + len(w)
-                    depth = 1
-                    k = j
-                    while k < len(core) and depth:
-                        depth += core[k] == '('
-                        depth -= core[k] == ')'
-                        k += 1
-                    core = core[:i] + core[j:k - 1] + core[k:]
-            rep.check(core == 'LangInterpreter::exec_group(a2, str::split_whitespace(str::to_lowercase(a1)))', R,
-                      'text2digits|input', 'validates the lowercased text split on Unicode whitespace', 'validates `%s`' % d)
